@@ -58,11 +58,14 @@ def model_jobs(tier):
                                             drop=["CONSTRAINT Emit"])),
         ("neg-unstripped", "Collect", subst_cfg("CollectMC_deny.cfg", "negu.cfg", DestMode='"unstripped"', DenyMax="0",
                                                 drop=["CONSTRAINT Emit"])),
+        ("neg-mangle32", "Collect", subst_cfg("CollectMC_deny.cfg", "negm.cfg", DestMode='"mangle32"', DenyMax="0",
+                                              drop=["CONSTRAINT Emit"])),
     ]
     return jobs
 
 
-EXPECT_NEG = {"neg-textual": "Contained", "neg-joined": "WritesUnderOut", "neg-unstripped": "FactoryWritesUnderOut"}
+EXPECT_NEG = {"neg-textual": "Contained", "neg-joined": "WritesUnderOut", "neg-unstripped": "FactoryWritesUnderOut",
+              "neg-mangle32": "FactoryWritesUnderOut"}
 
 
 def run_models(tier):
@@ -168,7 +171,9 @@ def run(prop, tier):
                      ("commands were really executed", ds.get("really_executed", 0) > 0),
                      ("deny cases wrote metadata", ds.get("docs", 0) > 0),
                      ("factories' results were persisted by the observer", ds.get("datafiles", 0) > 0),
-                     ("file names with a blank were candidate items", ds.get("blank_items", 0) > 0)):
+                     ("file names with a blank were candidate items", ds.get("blank_items", 0) > 0),
+                     ("items with regular-expression characters / deep path arguments were candidates",
+                      ds.get("meta_items", 0) > 0 and ds.get("deep_items", 0) > 0)):
         if not ok:
             raise lib.MachineryError("vacuity: never observed that %s (%s)" % (what, stats))
 
@@ -281,12 +286,14 @@ def selftest_traces(lay):
                 dsts=[outloc + ["data", "d", "g"], outloc + ["meta_data", "x.json"]],
                 written=[outloc + ["data", "d", "g"], outloc + ["meta_data", "x.json"]])
     col = dict(ev="collect", factory="foreach_execute", kind="text", comp="", files=[], commands=[["/bin/echo"], ["/bin/ech"]],
-               comps=[], items=[dict(t="cmd", w=["/bin/echo", "ab"], acc=False), dict(t="cmd", w=["/bin/ls", "b"], acc=True)],
+               comps=[], items=[dict(t="cmd", w=["/bin/echo", "ab"], acc=False, cls="plain"),
+                                dict(t="cmd", w=["/bin/ls", "b"], acc=True, cls="plain")],
                stored=False)
     sym = dict(ev="collect", factory="spec", kind="text", comp="hosts", files=[["hosts"]], commands=[], comps=[],
-               items=[dict(t="file", w=["/etc/hosts"], acc=False)], stored=False)
+               items=[dict(t="file", w=["/etc/hosts"], acc=False, cls="plain")], stored=False)
     blank = dict(ev="collect", factory="glob_file", kind="text", comp="", files=[["/x/my", "b"], ["/x/a"]], commands=[],
-                 comps=[], items=[dict(t="file", w=["/x/ab"], acc=True), dict(t="file", w=["/x/my", "b"], acc=False)],
+                 comps=[], items=[dict(t="file", w=["/x/ab"], acc=True, cls="plain"),
+                                  dict(t="file", w=["/x/my", "b"], acc=False, cls="blank")],
                  stored=True)
     fper = dict(ev="fpersist", factory="command_with_args", kind="text", saveas="absfile", path=[],
                 written=[["out", "data", "insights_commands", "sv", "x"], ["out", "meta_data", "c.json"]],
